@@ -15,7 +15,7 @@ T = "ChmpyVerif.Props.C13."
 THEOREMS = [T + n for n in ("trig_T_inverse", "trigonal_ops_conjugate", "supercell_uses_vectors", "trigonal_roundtrip", "trigonal_coords_roundtrip",
                             "supercell_index_unique", "supercell_same_crystal", "supercell_volume", "density_invariant",
                             # Props/C13Frac.lean
-                            "supercell_loop_shape", "scLoop_length", "scLoop_mem", "scLoop_nodup", "supercell_frac", "supercell_frac_in_cell",
+                            "supercell_loop_shape", "asP1_is_unit_supercell", "scLoop_unit", "scLoop_length", "scLoop_mem", "scLoop_nodup", "supercell_frac", "supercell_frac_in_cell",
                             "supercell_frac_inj", "conj_mul", "conj_one", "conj_det", "conj_trace", "conj_roundtrip")]
 # which groups have both trigonal settings: read off the regenerated table (kernel-checked), not asked of the code under test
 THEOREMS += ["ChmpyVerif.Props.C14.both_settings_groups"]
